@@ -151,7 +151,8 @@ theorem connectionLost_stops (h : Inv ps (Thunk.mgrLost :: pend) w) (hms : w.ms 
     (connectionLost w).1.ms = .STOPPED := by
   obtain ⟨c, x, hc, _⟩ := h.armed (by simp [core, hms, inConn])
   have hc' : w.conn = some c := hc
-  rw [connectionLost_eq w htm]
+  obtain ⟨op, prs, heq⟩ := connectionLost_eq w htm
+  rw [heq]
   simp only [hc', Option.isNone_some, Bool.false_eq_true, ↓reduceIte, lostWorld]
   split
   · simp only [mInput, hms, Manager.table]; rw [ms_mOuts]
@@ -325,18 +326,25 @@ theorem stoppedRC_done (h : Inv ps [] w) (htm : TimerOk w) (hts : w.ts = .S_stop
     (step w (.term .stoppedRC)).2 = .done ∧
     ((step w (.term .stoppedRC)).1.ts = .S_stoppingD ∨ (step w (.term .stoppedRC)).1.ts = .S_stopped) := by
   simp only [step, termFuel, tInput, hts, Terminator.table, tOuts]
+  obtain ⟨b, eb⟩ := stopCoop_same { w with ts := .S_stoppingD }
+  have htb : TimerOk ({ w with coopStopped := b } : World) := by
+    have := stopCoop_timerOk { w with ts := .S_stoppingD } htm
+    rw [eb] at this
+    exact this
+  rw [eb]
   by_cases hm : w.hasMgr = true
   · rw [if_pos hm]
-    obtain ⟨e1, _⟩ := stopRow_inv h hts hm htm
+    obtain ⟨e1, _⟩ := stopRow_inv (w := { w with coopStopped := b }) h hts hm htb
     rw [andThen_ok e1]
-    rcases hr : (andThen (mInput .k_stop "" 0 { w with ts := .S_stoppingD }) fun w1 => (whenStopped w1, none)) with ⟨u, e⟩
+    rcases hr : (andThen (mInput .k_stop "" 0 { w with coopStopped := b, ts := .S_stoppingD }) fun w1 => (whenStopped w1, none)) with ⟨u, e⟩
     rw [hr] at e1
     simp only at e1
     subst e1
     simp only [ofRes, true_and]
     left
     -- the Manager never touches the Terminator's state
-    have hk := keep_andThen (w := { w with ts := .S_stoppingD }) (r := mInput .k_stop "" 0 { w with ts := .S_stoppingD })
+    have hk := keep_andThen (w := { w with coopStopped := b, ts := .S_stoppingD })
+      (r := mInput .k_stop "" 0 { w with coopStopped := b, ts := .S_stoppingD })
       (f := fun w1 => (whenStopped w1, none)) (keep_mInput _ _ _ _)
       (by intro v; unfold whenStopped; dsimp only; split <;> keep_rfl)
     rw [hr] at hk
